@@ -1,6 +1,8 @@
 package main
 
 import (
+	"fmt"
+	"go/constant"
 	"go/token"
 	"strings"
 
@@ -13,7 +15,7 @@ func propC04() *Property {
 	return &Property{
 		ID:      "C04",
 		NeedCG:  false,
-		Decides: "R04.1 the payload of every segment built by a read path is nil or the result of an AEAD open whose error was tested nil; R04.2 every slice bound and read size that drives parsing derives from the unmarshalled (authenticated) metadata, and on the datagram parser each such bound is dominated by a comparison with the remaining length; R04.3 low-entropy decode validates the metadata before touching the encoded body (shared with C17); R04.4 a stream read/decrypt/protocol error ends the event loop (no path back to the next read); R04.5 a datagram that fails decrypt/unmarshal/parse produces no segment (every failure edge reaches the next ReadFrom without a return of a segment); R04.6 segments of a session's own sending direction are refused by the direction whitelist (a reflected datagram authenticates under the same key; folded over all protocol numbers); R04.7 no two AEAD seals share one (key, nonce) pair without associated data separating them.",
+		Decides: "R04.1 the payload of every segment built by a read path is nil or the result of an AEAD open whose error was tested nil; R04.2 every slice bound and read size that drives parsing derives from the unmarshalled (authenticated) metadata, and on the datagram parser each such bound is dominated by a comparison with the remaining length; R04.3 low-entropy decode validates the metadata before touching the encoded body (shared with C17); R04.4 a stream read/decrypt/protocol error ends the event loop (no path back to the next read); R04.5 a datagram that fails decrypt/unmarshal/parse produces no segment (every failure edge reaches the next ReadFrom without a return of a segment); R04.6 segments of a session's own sending direction are refused by the direction whitelist (a reflected datagram authenticates under the same key; folded over all protocol numbers); R04.7 no two AEAD seals share one (key, nonce) pair without associated data separating them; R04.8 on the datagram transport a segment type this end never receives legitimately is dropped with a nil return (never an error, which would close the session) - folded for all 16 protocol numbers on both roles.",
 		NotDecided: "AEAD strength; what the application read (run-time); padding content (unauthenticated by design); timing.",
 		Rules: []Rule{
 			{ID: "R04.1", Floor: 4, Text: "segment.payload provenance on the read paths", Run: r04_1},
@@ -21,6 +23,7 @@ func propC04() *Property {
 			{ID: "R04.4", Floor: 1, Text: "StreamUnderlay.RunEventLoop: the err != nil edge of readOneSegment never reaches another readOneSegment", Run: r04_4},
 			{ID: "R04.5", Floor: 4, Text: "PacketUnderlay.readOneSegment: failure edges of Decrypt / Unmarshal / parse* reach the next ReadFrom without returning a segment", Run: r04_5},
 			{ID: "R04.6", Floor: 32, Text: "direction whitelist of Session.input (shared with R05.6)", Run: func(c *RC) { r05_6(c) }},
+			{ID: "R04.8", Floor: 8, Text: "an inserted datagram of the wrong direction is dropped, not fatal: on the packet transport Session.input returns nil for every protocol its peer never sends (folded for 16 protocols x {client, server})", Run: r04_8},
 			{ID: "R04.7", Floor: 2, Text: "AEAD nonce discipline on the packet writer", Run: r04_7},
 		},
 	}
@@ -394,4 +397,93 @@ func r04_7(c *RC) {
 			c.Bad(key, call.Pos(), "the %s segment's payload is sealed with the same key and the same nonce as its metadata, with no associated data: the two ciphertexts are interchangeable, so an on-path party can replace a 32-byte payload ciphertext+tag by the datagram's own metadata ciphertext+tag; it authenticates and the application reads the 32 metadata bytes instead of what the sender wrote", kind)
 		}
 	})
+}
+
+
+// r04_8: on the datagram transport a segment type that this end never
+// receives legitimately (inserted or reflected by anyone on the path) must be
+// dropped like a lost datagram: Session.input returns nil before looking at
+// the segment. An error return would make runInputLoop close the session
+// (finding F13).
+func r04_8(c *RC) {
+	p := c.P
+	in := p.Fn(protoPkg, "Session.input")
+	if in == nil {
+		c.Anchor("Session.input")
+		return
+	}
+	pk, ok := constOf(p, "pkg/common", "PacketTransport")
+	if !ok {
+		c.Anchor("common.PacketTransport")
+		return
+	}
+	byVal := protocolNames(p)
+	stop := func(x ssa.Instruction) bool {
+		if u, ok := x.(*ssa.UnOp); ok && u.Op == token.MUL {
+			if f := fieldOrigin(u); f != nil && f.Name() == "block" {
+				return true
+			}
+		}
+		return false
+	}
+	for _, isClient := range []bool{false, true} {
+		for k := int64(0); k < 16; k++ {
+			name := byVal[k]
+			want := clientSends(name)
+			role := "server"
+			if isClient {
+				want = serverSends(name)
+				role = "client"
+			}
+			if want {
+				continue
+			}
+			base := assumeProtocol(k, map[string]bool{"isClient": isClient})
+			f := &Folder{P: p, Stop: stop, Assume: func(v ssa.Value) (cval, bool) {
+				if u, ok := v.(*ssa.UnOp); ok && u.Op == token.MUL {
+					if fo := fieldOrigin(u); fo != nil && fo.Name() == "transportProtocol" {
+						return cval{known: true, v: constant.MakeInt64(pk)}, true
+					}
+				}
+				return base(v)
+			}}
+			outs := f.Eval(in, []cval{{nonNil: true}, {nonNil: true}})
+			if name == "" {
+				name = "undefined"
+			}
+			key := fmt.Sprintf("wrong-direction-dropped:%s:%d(%s)", role, k, name)
+			fatal, passed := false, false
+			for _, o := range outs {
+				if o.Stopped != nil {
+					passed = true
+					continue
+				}
+				if o.Returned && len(o.Results) == 1 && !o.Results[0].isNil {
+					fatal = true
+				}
+				if o.Panicked {
+					fatal = true
+				}
+			}
+			switch {
+			case f.Over || len(outs) == 0:
+				c.Undecided(key, in.Pos(), "constant propagation did not finish")
+			case passed:
+				// reported by R04.6
+				c.OK(key, in.Pos(), "passes the whitelist (judged by R04.6)")
+			case fatal:
+				c.Bad(key, in.Pos(), "on the datagram transport Session.input of a %s session answers protocol %d (%s) with an error: runInputLoop then closes the session, so one captured datagram sent back to its sender (no key needed) ends the stream instead of being discarded", role, k, name)
+			default:
+				c.OKH(key, in.Pos(), "%s session, datagram transport, protocol %d (%s): dropped with a nil return", role, k, name)
+			}
+		}
+	}
+}
+
+func protocolNames(p *Prog) map[int64]string {
+	byVal := map[int64]string{}
+	for n, v := range protocolConsts(p) {
+		byVal[v] = n
+	}
+	return byVal
 }
